@@ -29,12 +29,14 @@ type Configuration struct {
 // members and index. By default, all members in the returned configuration
 // will have voter status.
 func NewConfiguration(index uint64, members map[string]string) *Configuration {
+	// The map is the caller's: the configuration keeps its own copy.
 	configuration := &Configuration{
 		Index:   index,
-		Members: members,
+		Members: make(map[string]string, len(members)),
 		IsVoter: make(map[string]bool, len(members)),
 	}
-	for id := range members {
+	for id, address := range members {
+		configuration.Members[id] = address
 		configuration.IsVoter[id] = true
 	}
 	return configuration
